@@ -316,6 +316,25 @@ def run(ctx):
             dis(dict(kind='frame produce', frame=repr(f)[:500], impl=ib.hex()[:400] if isinstance(ib, bytes) else ib, model=mb.hex()[:400] if isinstance(mb, bytes) else mb))
         if isinstance(ib, bytes):
             blobs.append((f, ib))
+    # a message dict re-used as a template (a session bumping its sequence count, a poll re-sending with another request): produced, given
+    # the next message's field values in place, produced again - the bytes are the second message's
+    shape = lambda f: (f['cmd'], tuple(it['tid'] for it in (f['cpf'] or [])), tuple((it.get('msg') or {}).get('kind') for it in (f['cpf'] or [])))
+    byshape = {}
+    for f, ib in blobs:
+        if f['cmd'] in (111, 112) and f['cpf']:
+            byshape.setdefault(shape(f), []).append((f, ib))
+    ntempl = 0
+    for group in byshape.values():
+        for (f1, _), (f2, b2) in list(zip(group, group[1:]))[: (40 if ctx.thorough else 8)]:
+            ntempl += 1
+            try:
+                rb = K.impl_reproduce(f1, f2)
+            except Exception as e:
+                rb = 'EXC ' + type(e).__name__
+            if rb != b2:
+                bad(dict(first=repr(f1)[:300], then=repr(f2)[:300], produced=rb.hex()[:400] if isinstance(rb, bytes) else rb, expected=b2.hex()[:400]),
+                    'a message dict produced, updated in place and produced again does not yield the bytes of the updated message')
+    cov['template_reuse_pairs'] = ntempl
     tails = [b'', b'\x65\x00', bytes(24)]
     mds = model_dec(0, 0, [b + tails[i % 3] for i, (_, b) in enumerate(blobs)])
     for i, ((f, ib), md) in enumerate(zip(blobs, mds)):
